@@ -148,6 +148,22 @@ class Evaluator:
                         return b - a
                     if kind == "RangeFull":
                         return self.length(base, depth + 1)
+        # the payload of `x.get(range)` (possibly through ok_or/ok_or_else/?): a sub-slice whose length is given by the range
+        if "p" in op and depth < 8:
+            src = self._payload_source(op)
+            if src is not None and src.is_(r"\[T\]>::get(_mut)?$|::get(_mut)?$") and len(src.args) == 2 and "p" in src.args[1] and isinstance(src.args[1]["p"][0], int) \
+                    and "Range" in self.fn.locals[src.args[1]["p"][0]]:
+                r = self._range(src.args[1])
+                if r is not None:
+                    kind, a, b = r
+                    if kind == "RangeTo":
+                        return b
+                    if kind == "Range":
+                        return b - a
+                    if kind == "RangeFrom":
+                        return self.length(src.args[0], depth + 1) - a
+                    if kind == "RangeFull":
+                        return self.length(src.args[0], depth + 1)
         k = self._key(op)
         if k is None:
             if "p" in op and len(self._defs(op["p"][0])) + len(self.calls_by_dest.get(op["p"][0], [])) <= 1:
@@ -156,6 +172,32 @@ class Evaluator:
                 return Lin.atom(("len", frozenset({("local",) + pl}), "_%s" % "".join(str(x) for x in pl)))
             return Lin.atom(("opaque", str(op)))
         return Lin.atom(("len", k[0], k[1]))
+
+    def _payload_source(self, op, depth=0):
+        """the call whose Some/Ok payload `op` is: follows `as Some/.0`, `as Ok/.0`, `as Continue/.0` projections, copies, and the adaptors
+        that keep the payload (Try::branch, ok_or, ok_or_else, map_err, Option::ok_or...)"""
+        KEEP = r"Try>::branch$|::ok_or$|::ok_or_else$|::map_err$|::ok$|::as_ref$|::as_deref$|::copied$|::cloned$"
+        while depth < 10 and "p" in op and isinstance(op["p"][0], int):
+            l = op["p"][0]
+            proj = [x for x in op["p"][1:] if x != "*"]
+            ds, cs = self._defs(l), self.calls_by_dest.get(l, [])
+            if proj and all(isinstance(x, str) and (x.startswith("as ") or x == ".0") for x in proj):
+                if len(cs) == 1 and not ds:
+                    c = cs[0]
+                    if c.is_(KEEP) and c.args:
+                        op = {"p": list(c.args[0]["p"]) + ["as Some", ".0"]} if "p" in c.args[0] else {}
+                    else:
+                        return c
+                elif len(ds) == 1 and not cs and ds[0][1][0] == "use" and "p" in ds[0][1][1]:
+                    op = {"p": list(ds[0][1][1]["p"]) + proj}
+                else:
+                    return None
+            elif not proj and len(ds) == 1 and not cs and ds[0][1][0] == "use" and "p" in ds[0][1][1]:
+                op = ds[0][1][1]
+            else:
+                return None
+            depth += 1
+        return None
 
     def _range(self, op):
         op = self._through(op)
